@@ -276,14 +276,26 @@ def run_c03(tier, t0):
 
 
 def _c04_cross(a):
-    """file 2 (written by generation 1) must decode to what generation 2 then shows (C03 oracle reused as a cross-check)"""
-    i, f2, snap2 = a
+    """file 2 (written by generation 1) must decode to what generation 2 then shows, and generation 2 must still expose what the
+    independent decoder extracts from the ORIGINAL file (so a loss that already happens in the first load cannot hide)"""
+    i, f2, snap2, orig = a
     try:
         if not (os.path.exists(f2) and os.path.exists(snap2)):
             return i, None
         S = compare.norm_snapshot(json.load(open(snap2)))
         D = c3dref.decode(open(f2, "rb").read())
-        return i, compare.loaded_vs_ref(S, D)
+        out = compare.loaded_vs_ref(S, D)
+        D0 = c3dref.decode(open(orig, "rb").read())
+        for g in D0["groups"].values():
+            g["name"] = g["name"].upper()                   # saving stores names upper-case (documented)
+        for p in D0["params"]:
+            p["name"] = p["name"].upper()
+        if len(D0["frames"]) == D0["nframes_header"]:      # (the truncated vendor file cannot be compared on data)
+            for k, d in compare.loaded_vs_ref(S, D0):
+                if "DATA_START" in d:
+                    continue                                 # the pointer is rewritten by save
+                out.append(("vs_original/" + k, d))
+        return i, out
     except Exception as e:
         return i, [("HARNESS", "%s: %s" % (type(e).__name__, e))]
 
@@ -319,7 +331,7 @@ def run_c04(tier, t0):
                 v.setdefault("files", [paths[v["case"]]])
                 v["detail"] = "%s variants=%s: %s" % (os.path.basename(paths[v["case"]]), metas[v["case"]]["variants"], v["detail"])
         with Pool(C.NCPU) as pool:
-            cr = pool.map(_c04_cross, [(i, os.path.join(out, "gen2_%d.c3d" % i), os.path.join(out, "gen2_%d.json" % i)) for i in range(len(paths))], chunksize=8)
+            cr = pool.map(_c04_cross, [(i, os.path.join(out, "gen2_%d.c3d" % i), os.path.join(out, "gen2_%d.json" % i), paths[i]) for i in range(len(paths))], chunksize=8)
         crossed = 0
         for i, diffs in cr:
             if diffs is None:
